@@ -99,6 +99,18 @@ def confirm_violations(prop, agg, r_mcb, predicate, keyfn, out, max_replays=40, 
                 confirmed = (line, o)
                 break
         if confirmed is None:
+            # the integer-scaled counterexample did not reproduce: try the model's own (non-integral, exactly representable) values
+            try:
+                alts = unscaled_weight_vectors(rec, obl.get('model') or rec.get('model'))
+            except Exception:
+                alts = []
+            for wv in alts:
+                line = replay_line(rec, wv, 'double')
+                o = run_replayer(r_mcb, [line])[0]
+                if predicate(o, rec):
+                    confirmed = (line, o)
+                    break
+        if confirmed is None:
             # e.g. behaviour that depends on the address order of the edges, which the replay cannot always reproduce
             unrepro.append('%s / %s / weights %s' % (rec.get('case'), obl['name'], weights))
             continue
